@@ -230,7 +230,7 @@ PAYLOADS = [
     ('<!DOCTYPE a [<!NOTATION n SYSTEM "n"><!ENTITY u SYSTEM "u" NDATA n>]><a/>', True),
     ('<!DOCTYPE a SYSTEM "http://example.invalid/x.dtd"><a/>', True),
     ('<!-- c --><?pi x?><!DOCTYPE a [<!ENTITY a1 "1"><!ENTITY a2 "&a1;&a1;">]><a>&a2;</a>', True),
-    ('<?xml version="1.0" standalone="yes"?><!DOCTYPE a SYSTEM "http://example.invalid/x.dtd"><a/>', True),          # known finding (region)
+    ('<?xml version="1.0" standalone="yes"?><!DOCTYPE a SYSTEM "http://example.invalid/x.dtd"><a/>', True),
 ]
 STANDALONE = 11
 
@@ -244,7 +244,25 @@ def _in_open_region(fn, **kw):
     from engine.known import open_regions
     return any(globals()[pred](**kw) for pred in open_regions(__name__, fn))
 
-KINDS = ["text", "bytes", "bytesio", "oneway", "bytes-utf16", "bytesio-utf16be-decl"]
+KINDS = ["text", "bytes", "bytesio", "oneway", "bytes-utf16", "bytesio-utf16be-decl", "oneway-raw"]
+
+
+class _RawOneWay(io.RawIOBase):
+    """a non-seekable unbuffered stream (pipe, raw socket file)"""
+    def __init__(self, data):
+        self._b = io.BytesIO(data)
+
+    def readable(self):
+        return True
+
+    def seekable(self):
+        return False
+
+    def readinto(self, b):
+        d = self._b.read(len(b))
+        b[:len(d)] = d
+        return len(d)
+
 
 
 def pre_payload(fn, p, k):
@@ -258,11 +276,17 @@ def _source(text, kind):
         return text.encode()
     if kind == "bytesio":
         return io.BytesIO(text.encode())
-    if kind == "bytes-utf16":
-        return text.replace('<?xml version="1.0"?>', '').encode('utf-16')          # BOM, no XML declaration
-    if kind == "bytesio-utf16be-decl":
-        body = text.replace('<?xml version="1.0"?>', '')
-        return io.BytesIO(b'\xfe\xff' + ('<?xml version="1.0" encoding="UTF-16"?>' + body).encode('utf-16-be'))
+    if kind == "oneway-raw":
+        return _RawOneWay(text.encode())
+    if kind in ("bytes-utf16", "bytesio-utf16be-decl"):
+        import re
+        m = re.match(r'<\?xml[^>]*\?>', text)
+        body = text[m.end():] if m else text
+        standalone = ' standalone="yes"' if (m and 'standalone="yes"' in m.group(0)) else ''
+        if kind == "bytes-utf16":          # BOM; an XML declaration only when it carries the standalone flag
+            decl = '<?xml version="1.0"%s?>' % standalone if standalone else ''
+            return (decl + body).encode('utf-16')
+        return io.BytesIO(b'\xfe\xff' + ('<?xml version="1.0" encoding="UTF-16"%s?>' % standalone + body).encode('utf-16-be'))
     return _OneWay(text.encode())
 
 
